@@ -568,11 +568,12 @@ class An(ResultQuantifier[T]):
 
     def evaluate(self) -> Iterable[TypingUnion[T, Dict[TypingUnion[T, SymbolicExpression[T]], T]]]:
         results = self._evaluate__()
+        blocks_opened_by_user_code = []
         try:
             while True:
                 # symbolic mode is switched off only while the evaluation is advanced, never across the yield,
                 # otherwise the override would stay active in the caller's code while this generator is suspended.
-                with symbolic_mode(mode=None):
+                with symbolic_mode(mode=None, _evaluation_stack=blocks_opened_by_user_code):
                     try:
                         result = next(results)
                     except StopIteration:
@@ -1088,8 +1089,18 @@ class Variable(CanBehaveLikeAVariable[T]):
             unbound_kwargs = self._bind_child_vars_(unbound_child_vars, sources or {})
             yield from self._bind_unbound_kwargs_and_yield_results_(kwargs, unbound_kwargs, bound_kwargs)
         else:
-            instance = self._type_(**{k: hv.value for k, hv in bound_kwargs.items()})
+            instance = self._call_user_code_(self._type_, **{k: hv.value for k, hv in bound_kwargs.items()})
             yield from self._process_output_and_update_values_(instance, **kwargs)
+
+    @staticmethod
+    def _call_user_code_(function: Callable, **kwargs) -> Any:
+        """
+        Call a user's class / predicate concretely. The evaluation step as a whole runs with the symbolic mode off, but
+        user code that is suspended inside the step (a generator used as a domain that keeps a `with symbolic_mode():`
+        block open while it yields) can have switched it on again.
+        """
+        with symbolic_mode(mode=None):
+            return function(**kwargs)
 
     def _bind_unbound_kwargs_and_yield_results_(self, kwargs: Dict[str, Dict[int, HashedValue]],
                                                 unbound_kwargs: Iterable[Dict[str, Dict[int, HashedValue]]],
@@ -1101,7 +1112,7 @@ class Variable(CanBehaveLikeAVariable[T]):
             # Update unwrapped hashed args from the delta only
             for k, v in extra_kwargs.items():
                 bound_kwargs[k] = v[self._child_vars_[k]._id_]
-            instance = self._type_(**{k: hv.value for k, hv in bound_kwargs.items()})
+            instance = self._call_user_code_(self._type_, **{k: hv.value for k, hv in bound_kwargs.items()})
             yield from self._process_output_and_update_values_(instance, **merged_kwargs)
 
     def _search_and_yield_from_cache_(self, kwargs: Optional[Dict] = None):
@@ -1134,7 +1145,7 @@ class Variable(CanBehaveLikeAVariable[T]):
         """
         # evaluate the predicate.
         if self._predicate_type_ == PredicateType.SubClassOfPredicate:
-            function_output = function_output()
+            function_output = self._call_user_code_(function_output)
 
         # Compute truth considering inversion; only the output of a predicate is a truth value, an instance that was
         # constructed for an inferred variable is a value whatever its own truthiness (e.g. an empty container type).
@@ -2045,7 +2056,8 @@ def rule_mode(query: Optional[SymbolicExpression] = None):
 
 
 @contextmanager
-def symbolic_mode(query: Optional[SymbolicExpression] = None, mode: EQLMode = EQLMode.Query):
+def symbolic_mode(query: Optional[SymbolicExpression] = None, mode: EQLMode = EQLMode.Query,
+                  _evaluation_stack: Optional[List[SymbolicExpression]] = None):
     """
     Context manager to temporarily enable symbolic construction mode.
 
@@ -2060,9 +2072,11 @@ def symbolic_mode(query: Optional[SymbolicExpression] = None, mode: EQLMode = EQ
         if mode is None:
             # an evaluation: user code (predicates, constructors of concluded instances) runs as if outside any block, also
             # when evaluate() is called inside a block opened on a query - an expression the user code builds must not be
-            # attached to (or implicitly bound to the selected variable of) that query.
+            # attached to (or implicitly bound to the selected variable of) that query. The blocks user code opens itself
+            # live on the evaluation's own stack, which an evaluation that proceeds in steps hands in again at every step
+            # (a generator used as a domain can keep a block open from one step to the next).
             hidden_stack = SymbolicExpression._symbolic_expression_stack_
-            SymbolicExpression._symbolic_expression_stack_ = []
+            SymbolicExpression._symbolic_expression_stack_ = [] if _evaluation_stack is None else _evaluation_stack
         if query is not None:
             query.__enter__(in_rule_mode=True)
             if mode == EQLMode.Rule and isinstance(query, ResultQuantifier):
